@@ -28,10 +28,13 @@ COVER = {
     ("braille.rs", "i_start_ueb"): ("C20", "MC.Props.C20.firstIndicator_no_panic"),
     ("braille.rs", "LaTeX_cleanup"): ("C06", "MC.TextCodes.latexCleanup (total function; regex construction unwraps are load-time constants)"),
     ("braille.rs", "ASCIIMath_cleanup"): ("C06", "MC.TextCodes.asciimathCleanup (total function; regex construction unwraps are load-time constants)"),
-    ("canonicalize.rs", "canonicalize_mrows_in_mrow"): ("C03", None),
-    ("canonicalize.rs", "reduce_stack_one_time"): ("C03", None),
-    ("canonicalize.rs", "shift_stack"): ("C03", None),
+    ("canonicalize.rs", "canonicalize_mrows_in_mrow"): ("C03", "MC.Props.C03NP.parseRow_no_panic (for the modelled path: rows of plain tokens without the right quotation marks as mo)"),
+    ("canonicalize.rs", "reduce_stack_one_time"): ("C03", "MC.Props.C03NP.parseRow_no_panic (for the modelled path: rows of plain tokens without the right quotation marks as mo)"),
+    ("canonicalize.rs", "shift_stack"): ("C03", "MC.Props.C03NP.parseRow_no_panic (for the modelled path: rows of plain tokens without the right quotation marks as mo)"),
     ("canonicalize.rs", "find_operator"): ("C03", None),
+    ("canonicalize.rs", "add_child_to_mrow"): ("C03", "MC.Props.C03NP.parseRow_no_panic (for the modelled path: rows of plain tokens without the right quotation marks as mo)"),
+    ("canonicalize.rs", "remove_last_operand_from_mrow"): ("C03", "MC.Props.C03NP.parseRow_no_panic (for the modelled path: rows of plain tokens without the right quotation marks as mo)"),
+    ("canonicalize.rs", "reduce_stack"): ("C03", "MC.Props.C03NP.parseRow_no_panic (for the modelled path: rows of plain tokens without the right quotation marks as mo)"),
     ("canonicalize.rs", "shift_text"): ("C18", "MC.Props.C18.shiftText_total"),
     ("canonicalize.rs", "canonicalize_plane1"): ("C18", "MC.Props.C18.shiftText_total"),
     ("speech.rs", "is_repetitive"): ("C04", None),
